@@ -25,6 +25,10 @@ def _lookup_post(result, args, kwargs, old):
 
 
 def _install(ctx):
+    if _state.get('installed'):
+        _state['ctx'] = ctx
+        return
+    _state['installed'] = True
     import parso.tree
     _state['ctx'] = ctx
     contracts.install(parso.tree.BaseNode, 'get_leaf_for_position', _lookup_post)
